@@ -318,7 +318,10 @@ def check(repo: Repo, R) -> None:
         raise AnalysisError(f"anchor-vanished: only {m} flatname call sites found")
     # _unique_name digest is hashlib over text (shared with C09.3)
     fu = repo.func(F_PARAMS, "_unique_name")
-    ok = bool(pat.find("hashlib.new('md5', usedforsecurity=False)", fu.node)) and bool(pat.find("bytes(jsonstr, encoding='utf-8')", fu.node)) and bool(pat.find("h.update(data)", fu.node))
+    from . import shared
+
+    upd = pat.find("$H.update($D)", fu.node)
+    ok = bool(pat.find("hashlib.new('md5', usedforsecurity=False)", fu.node)) and len(upd) == 1 and pat.match("bytes(json.dumps(params, *$_), encoding='utf-8')", shared.prov(fu.node, upd[0][1]["D"])) is not None
     R.check(ok, rule3, key_of(fu, "digest"), fu.site, f"hashed parameter names are a hashlib digest over the UTF-8 JSON text: {ok}", why="hashed names differ between processes")
     # source-order containers: SetList keeps insertion order (list-backed)
     sl = repo.cls(F_PORTREFS, "SetList")
